@@ -36,60 +36,74 @@ func c12ConcScenarios() ([]*sched.Scenario, error) {
 	writeOp := lx.Op{Kind: "post", Name: "w>q1", Postings: []lx.P{{Src: "world", Dst: "q", Ast: "USD", Amt: "1"}}}
 	for _, mode := range c12Modes() {
 		mode := mode
-		logs := srcLogs[mode.Name]
-		for _, path := range []string{"single", "atomic-bulk", "import"} {
-			path := path
-			scs = append(scs, &sched.Scenario{
-				Name: fmt.Sprintf("import-vs-%s/%s", path, mode.Name), Base: boot, Threads: 2,
-				New: func(w *world.World) ([]func(ctx context.Context), any) {
-					st := &c12ConcState{path: path}
-					c0, err := w.Sys.GetLedgerController(context.Background(), mode.Dst)
-					if err != nil {
-						panic(err)
-					}
-					c1, err := w.Sys.GetLedgerController(context.Background(), mode.Dst)
-					if err != nil {
-						panic(err)
-					}
-					return []func(ctx context.Context){
-						func(ctx context.Context) {
-							st.importErr = importLogs(ctx, c0, logs)
-							st.importRan = true
-							st.commitPos[0] = sched.LastCommitPos(ctx)
-						},
-						func(ctx context.Context) {
-							switch path {
-							case "single":
-								st.single = applyRecover(ctx, c1, writeOp)
-							case "atomic-bulk":
-								st.write, _ = runBulk(ctx, c1, true, []lx.Op{writeOp})
-							case "import":
-								err := importLogs(ctx, c1, logs)
-								st.single = lx.Outcome{Err: err, Class: lx.Classify(err)}
+		// two streams: the whole exported history (ids 1..4), and its suffix 2..4 whose ids are
+		// all LATER than the log of the concurrent write — the only import a write that
+		// commits first does not already exclude by id monotonicity, so the state check under
+		// the ledger lock is what must reject it (seeded change C12: state tested on a copy
+		// cached before the lock was taken)
+		type stream struct {
+			tag  string
+			logs []ledger.Log
+		}
+		for _, sv := range []stream{{"", srcLogs[mode.Name]}, {"later-ids-", srcLogs[mode.Name][1:]}} {
+			logs := sv.logs
+			for _, path := range []string{"single", "atomic-bulk", "import"} {
+				path := path
+				if sv.tag != "" && path == "import" {
+					continue
+				}
+				scs = append(scs, &sched.Scenario{
+					Name: fmt.Sprintf("import-%svs-%s/%s", sv.tag, path, mode.Name), Base: boot, Threads: 2,
+					New: func(w *world.World) ([]func(ctx context.Context), any) {
+						st := &c12ConcState{path: path}
+						c0, err := w.Sys.GetLedgerController(context.Background(), mode.Dst)
+						if err != nil {
+							panic(err)
+						}
+						c1, err := w.Sys.GetLedgerController(context.Background(), mode.Dst)
+						if err != nil {
+							panic(err)
+						}
+						return []func(ctx context.Context){
+							func(ctx context.Context) {
+								st.importErr = importLogs(ctx, c0, logs)
+								st.importRan = true
+								st.commitPos[0] = sched.LastCommitPos(ctx)
+							},
+							func(ctx context.Context) {
+								switch path {
+								case "single":
+									st.single = applyRecover(ctx, c1, writeOp)
+								case "atomic-bulk":
+									st.write, _ = runBulk(ctx, c1, true, []lx.Op{writeOp})
+								case "import":
+									err := importLogs(ctx, c1, logs)
+									st.single = lx.Outcome{Err: err, Class: lx.Classify(err)}
+								}
+								st.commitPos[1] = sched.LastCommitPos(ctx)
+							},
+						}, st
+					},
+					Check: func(ctx context.Context, w *world.World, state any, run *sched.Run) [][2]string {
+						return c12ConcCheck(ctx, w, state.(*c12ConcState), mode, logs, writeOp)
+					},
+					Outcome: func(state any) string {
+						st := state.(*c12ConcState)
+						wr := "ok"
+						switch st.path {
+						case "atomic-bulk":
+							if !st.write.allOK() {
+								wr = "failed"
 							}
-							st.commitPos[1] = sched.LastCommitPos(ctx)
-						},
-					}, st
-				},
-				Check: func(ctx context.Context, w *world.World, state any, run *sched.Run) [][2]string {
-					return c12ConcCheck(ctx, w, state.(*c12ConcState), mode, logs, writeOp)
-				},
-				Outcome: func(state any) string {
-					st := state.(*c12ConcState)
-					wr := "ok"
-					switch st.path {
-					case "atomic-bulk":
-						if !st.write.allOK() {
-							wr = "failed"
+						default:
+							if !st.single.OK() {
+								wr = st.single.Class
+							}
 						}
-					default:
-						if !st.single.OK() {
-							wr = st.single.Class
-						}
-					}
-					return fmt.Sprintf("import=%s write=%s", lx.Classify(st.importErr)+okIfEmpty(st.importErr), wr)
-				},
-			})
+						return fmt.Sprintf("import=%s write=%s", lx.Classify(st.importErr)+okIfEmpty(st.importErr), wr)
+					},
+				})
+			}
 		}
 	}
 	return scs, nil
